@@ -923,6 +923,9 @@ def slow_case(kind, slow, reply, bulk, resume, order):
             loop.flush_all(horizon=200000, **kw)
         S.t.write_eof()
         loop.flush_all(horizon=200000, **kw)
+        if resume == 'after-eof':       # the slow end half-closes first and only then starts to read
+            S.t.resume_reading()
+            loop.flush_all(horizon=200000, **kw)
         if w.pair.c._transport is None or w.pair.s._transport is None:
             viol.append(('connection-lost', 'the SSH connection ended: client %r server %r' % (
                 getattr(w.pair.client_owner, 'lost_exc', None), getattr(w.pair.server_owner, 'lost_exc', None))))
@@ -966,7 +969,7 @@ def slow_jobs(tier):
     kinds = ('local', 'remote', 'local-path') if tier == 'quick' else ('local', 'remote', 'local-path', 'remote-path', 'socks5')
     bulks = (100, 1200000) if tier == 'quick' else (100, 600000, 1200000, 2300000, 4500000)
     cases = [(k, s, r, b, res, o) for k in kinds for s in ('A', 'B') for r in (10, 300) for b in bulks
-             for res in ('before-upload', 'after-upload') for o in ('fifo', 'reverse')]
+             for res in ('before-upload', 'after-upload', 'after-eof') for o in ('fifo', 'reverse')]
     return [cases[i::32] for i in range(32)]
 
 
